@@ -8,7 +8,7 @@ import tempfile
 import numpy
 
 from .. import witness
-from ..core import digest
+from ..core import digest, scratch_dir
 
 UTC = datetime.timezone.utc
 EPOCH = datetime.datetime(1970, 1, 1, tzinfo=UTC)
@@ -25,7 +25,7 @@ META = {
                     "time accepted iff decoded == instant at ms resolution (csep-csv, jma) or floor(instant to s) <= decoded <= instant (zmap, ndk, horus)"],
     "deciding": ["decode:csep-csv", "decode:zmap", "decode:jma-csv", "decode:ingv_horus", "decode:ndk"],
 }
-META["added"] = 'Added: 1-6 fraction digits, files without final newline, decimal-year ZMAP in the second half of the year, pre-1970 fractional CSEP times, the epoch instant and zero-valued coordinates / depths. shards under different process time zones.'
+META["added"] = 'Added: 1-6 fraction digits, files without final newline, decimal-year ZMAP in the second half of the year, pre-1970 fractional CSEP times, the epoch instant and zero-valued coordinates / depths. shards under different process time zones. NDK CENTROID lines with touching fields; the same file path re-used by every case.'
 MANIFEST = {
     "technique": "boundary recorder on csep.load_catalog per format against per-format writer models; sys.monitoring witness on the readers' roll-over branches (a branch never reached makes the run inconclusive)",
     "level_text": "For each of the five text formats, generated files of well-formed records are decoded by the real readers; event count, order, coordinates, depth, magnitude and origin time (UTC, at the format's resolution) are compared with the writer model; roll-over spellings (seconds 60, minute 60, hour 24) and non-UTC offsets are generated on purpose and the witness confirms the roll-over branches executed.",
@@ -189,7 +189,12 @@ def write_ndk(path, ev, r):
             m0 = float(numpy.round(r.uniform(1.0, 9.999), 3))
             line1 = "%-4s %10s %10s %6.2f %7.2f %5.1f %3.1f %3.1f %-24s" % ("PDE", date_s, time_s, lat, lon, dep, 5.0, 0.0, "SYNTHETIC REGION")
             line2 = "%-16s B:  4    4  40 S: 27   33  50 M:  0    0   0 CMT: 1 TRIHD:  0.6" % ("C%sA" % tt.strftime("%Y%m%d%H%M"))
-            line3 = "CENTROID:     -0.3 0.9  13.76 0.06  -89.08 0.09 162.8 12.5 FREE S-20050322125201"
+            # CENTROID line, fixed columns [10:18] time shift, [18:22] its error, then lat/err, lon/err, depth/err: with a two-digit error
+            # (>= 10.0 s) or a three-digit shift the neighbouring fields touch, which is legal in the fixed-width format
+            tshift = float(r.choice([-0.3, 12.7, -9.9, 123.4, 0.0]))
+            terr = float(r.choice([0.9, 0.0, 10.5, 99.9, 0.1]))
+            line3 = "CENTROID: %8.1f%4.1f%7.2f%5.2f%8.2f%5.2f%6.1f%5.1f FREE S-20050322125201" % (tshift, terr, 13.76, 0.06, -89.08, 0.09, 162.8, 12.5)
+            assert len(line3.split("FREE")[0]) == 59, line3
             line4 = "%2d  0.838 0.201 -0.005 0.231 -0.833 0.270  1.050 0.121 -0.369 0.161  0.044 0.240" % expo
             line5 = "V10   1.581 56  12  -0.537 23 140  -1.044 24 241 %7.3f   9 29  142 133 72   66" % m0
             assert line5[49:56].strip() == "%.3f" % m0, line5[49:56]
@@ -204,7 +209,7 @@ def ex_file(ctx, fmt, n, seed, variant=0):
     import csep
     r = numpy.random.default_rng([seed, FORMATS.index(fmt), 19])
     ev = gen_events(r, n, fmt)
-    tmp = tempfile.mkdtemp(prefix="c19-", dir=os.environ.get("VERIF_TMP", "/var/tmp"))
+    tmp = scratch_dir("c19-")
     path = os.path.join(tmp, "cat." + {"csep-csv": "csv", "zmap": "dat", "jma-csv": "csv", "ingv_horus": "txt", "ndk": "ndk"}[fmt])
     rc = {"exec": "file", "args": {"fmt": fmt, "n": n, "seed": seed, "variant": variant}}
     ctx.current_case = rc
